@@ -804,6 +804,139 @@ Section RR.
       rewrite Hm. cbn [fst snd]. eexists. exists e. split; reflexivity.
   Qed.
 
+  (* ---------------------------------------------------------------- seek by skipping meets an item that does not parse *)
+  Lemma c_skip_err' c d : 0 < d -> lim c < pos c + d -> exists e, c_skip c d = Err e.
+  Proof.
+    intros H0 H. unfold c_skip, c_len. rewrite cursor_len_spec.
+    destruct (skip_guard (lim c - pos c) d) eqn:G; [apply skip_guard_spec in G; lia|eauto].
+  Qed.
+
+  Lemma skip_question_fails c : whole msg c -> question_at msg (pos c) = None ->
+    exists c' e, m_skip_question msg c = (c', Err e).
+  Proof.
+    intros Hw. unfold question_at. pose proof (skip_is_name_at msg c Hw) as Hs.
+    unfold m_skip_question, mbind, lift_c, lift.
+    destruct (name_at msg (pos c)) as [[r fits]|].
+    - rewrite Hs. cbn [bind]. unfold be. intro H.
+      assert (Hr4 : lenN msg < r + 4).
+      { destruct (r + 2 <=? lenN msg) eqn:E1; [|lia]. destruct (r + 2 + 2 <=? lenN msg) eqn:E2; [discriminate|lia]. }
+      destruct Hw as [Hl Ho]. destruct (c_skip_err' (c_set_pos c r) 4 ltac:(lia) ltac:(cbn [pos lim c_set_pos]; lia)) as [e Ee].
+      rewrite Ee. cbn [bind]. eauto.
+    - intros _. destruct Hs as [e Hs]. rewrite Hs. cbn [bind]. eauto.
+  Qed.
+
+  Lemma skip_questions_loop_fail : forall n fuel r idx hw, RState r idx hw -> idx + N.of_nat n = lenN qs -> lenN qs < nq ->
+    question_at msg e2 = None -> (n < fuel)%nat -> exists r' e, skip_questions_loop msg fuel r = (r', Err e).
+  Proof.
+    induction n as [|n IH]; intros fuel r idx hw Hs Hn Hshortq Hnone Hf; (destruct fuel as [|f]; [lia|]); cbn [skip_questions_loop];
+      pose proof Hs as (Hw & Hp & Hi & Hd);
+      destruct (counts_spec nq an ns ar P Hc1 Hc2 Hc3 Hc4 P_bounds _ _ _ Hi) as (Cq & _); rewrite Cq;
+      (assert (E : (0 <? nq - N.min idx nq) = true) by lia); rewrite E.
+    - assert (Hrs0 : lenN rs = 0) by (rewrite (Hshort Hshortq); reflexivity).
+      assert (HP : P idx = e2) by (apply P_end; lia).
+      unfold run. destruct (skip_question_fails (r_cur r) Hw ltac:(rewrite Hp, HP; exact Hnone)) as (c' & e & Ee). rewrite Ee. eauto.
+    - destruct (getN_some qs idx ltac:(lia)) as [it Hg]. destruct (P_question idx it Hg) as (P1 & P2 & P3).
+      unfold run. rewrite (skip_question_is_question_at (r_cur r) it Hw) by (rewrite Hp; exact P3).
+      cbn [with_cur r_tr r_cur pos c_set_pos].
+      destruct (question_step nq an ns ar P Hc1 Hc2 Hc3 Hc4 P_bounds _ _ _ Hi ltac:(lia)) as (tr' & Et & Hi').
+      rewrite <- P2, Et.
+      assert (Hs1 : RState (with_tr (mkReader (c_set_pos (r_cur r) (P (idx + 1))) (r_tr r) (r_done r)) tr') (idx + 1) (idx + 1)).
+      { split; [apply whole_set_pos; exact Hw|]. split; [reflexivity|]. split; [exact Hi'|exact Hd]. }
+      exact (IH f _ _ _ Hs1 ltac:(lia) Hshortq Hnone ltac:(lia)).
+  Qed.
+
+  Lemma marker_impl_done r r1 x : marker_impl msg r = (r1, x) -> r_done r1 = r_done r.
+  Proof.
+    unfold marker_impl, calc_section, bind2, run. destruct (next_section (r_tr r) (pos (r_cur r))) as [t so].
+    destruct so as [s0|]; [|intro H; inversion H; reflexivity].
+    cbn [with_tr r_cur]. match goal with |- context [let (_, _) := ?m in _] => destruct m as [c0 y0] end.
+    intro H; inversion H; subst. reflexivity.
+  Qed.
+
+  (* the implementation-level calls on a record that does not parse completely *)
+  Lemma fail_record_impl r idx hw : RState r idx hw -> lenN qs = nq -> idx = nq + lenN rs -> lenN rs < an + ns + ar ->
+    match record_at msg e2 with Some it => a_data_ok it = false | None => True end ->
+    (exists r' e, marker_impl msg r = (r', Err e)) \/
+    (exists r1 mk r2 e, marker_impl msg r = (r1, Ok mk) /\ skip_record_data_impl mk r1 = (r2, Err e)).
+  Proof.
+    intros Hs Hfull Hidx Hlt Hstop. pose proof (fail_record r idx hw Hs Hfull Hidx Hlt) as Hf. destruct Hs as (_ & _ & _ & Hd).
+    destruct (record_at msg e2) as [it|].
+    - right. destruct (Hf Hstop) as (r1 & r2 & e & E1 & E2 & _). cbv zeta in E1, E2.
+      unfold rd_marker in E1. rewrite Hd in E1. apply latch_ok in E1. unfold bind2 in E1.
+      destruct (marker_impl msg r) as [r0 x] eqn:Em. destruct x as [m| | | | |]; try discriminate. inversion E1; subst.
+      pose proof (marker_impl_done _ _ _ Em) as Hd1. rewrite Hd in Hd1.
+      unfold rd_skip_data in E2. destruct (negb _); [discriminate|]. rewrite Hd1 in E2.
+      eexists. eexists. eexists. exists e. split; [reflexivity|exact E2].
+    - left. destruct Hf as (r' & e & E1 & _). unfold rd_marker in E1. rewrite Hd in E1. unfold latch, bind2 in E1.
+      destruct (marker_impl msg r) as [r0 x]. destruct x as [m| | | | |]; cbn [fst snd] in E1; inversion E1; subst. eauto.
+  Qed.
+
+  Lemma skip_section_loop_fail s : s < 3 -> forall n fuel r idx hw, RState r idx hw -> nq <= idx -> lenN qs = nq ->
+    sec_start (lin nq an ns ar) s <= idx - nq ->
+    idx + N.of_nat n = nq + lenN rs ->
+    nq + lenN rs < nq + sec_start (lin nq an ns ar) s + sec_count (lin nq an ns ar) s ->
+    match record_at msg e2 with Some it => a_data_ok it = false | None => True end ->
+    (n < fuel)%nat -> exists r' e, skip_section_loop msg fuel s r = (r', Err e).
+  Proof.
+    intros Hs3. induction n as [|n IH]; intros fuel r idx hw Hs Hge Hfull Hin Hn Hstopin Hstop Hf; (destruct fuel as [|f]; [lia|]); cbn [skip_section_loop];
+      pose proof Hs as (Hw & Hp & Hi & Hd);
+      destruct (counts_spec nq an ns ar P Hc1 Hc2 Hc3 Hc4 P_bounds _ _ _ Hi) as (_ & C0 & C1 & C2 & _);
+      assert (Cs : records_left_in (r_tr r) s = Ok (sec_count (lin nq an ns ar) s - rd nq an ns ar idx s))
+        by (assert (s = 0 \/ s = 1 \/ s = 2) as [-> | [-> | ->]] by lia; assumption);
+      rewrite Cs; unfold rd in *;
+      (assert (E : (0 <? sec_count (lin nq an ns ar) s - N.min (idx - nq - sec_start (lin nq an ns ar) s) (sec_count (lin nq an ns ar) s)) = true) by lia);
+      rewrite E.
+    - assert (Hnrec : lenN rs < an + ns + ar).
+      { assert (s = 0 \/ s = 1 \/ s = 2) as [-> | [-> | ->]] by lia; unfold sec_start, sec_count, lin in *; cbn [l_an l_ns l_ar] in *; lia. }
+      destruct (fail_record_impl r idx hw Hs Hfull ltac:(lia) Hnrec Hstop) as [(r' & e & E1)|(r1 & mk & r2 & e & E1 & E2)]; unfold bind2; rewrite E1; [eauto|rewrite E2; eauto].
+    - destruct (getN_some rs (idx - nq) ltac:(lia)) as [it Hg].
+      destruct (step_record_impl r idx hw it Hs Hge Hg) as (r1 & mk & r2 & E1 & E2 & S2).
+      unfold bind2. rewrite E1, E2.
+      exact (IH f r2 (idx + 1) (N.max hw (idx + 1)) S2 ltac:(lia) Hfull ltac:(lia) ltac:(lia) Hstopin Hstop ltac:(lia)).
+  Qed.
+
+  (* seek by skipping that meets an item which does not parse completely before it reaches the
+     section: it fails and the reader is exhausted *)
+  Theorem step_seek_skip_fails r hw s : RState r 0 hw -> s < 3 -> known (lin nq an ns ar) (mkA 0 hw false None) s = false ->
+    (lenN qs < nq -> question_at msg e2 = None) ->
+    (lenN qs = nq -> match record_at msg e2 with Some it => a_data_ok it = false | None => True end) ->
+    lenN qs < nq \/ (lenN qs = nq /\ lenN rs < sec_start (lin nq an ns ar) s) ->
+    exists r' e, rd_seek msg s r = (r', Err e) /\ r_done r' = true.
+  Proof.
+    intros Hs Hs3 Hk Hstopq Hstopr Hwhere. pose proof Hs as (Hw & Hp & Hi & Hd).
+    destruct (seek_step nq an ns ar P Hc1 Hc2 Hc3 Hc4 P_bounds _ _ _ s Hi Hs3) as [_ Hno]. specialize (Hno Hk).
+    unfold rd_seek. rewrite Hd, Hno, Hp, P_0. unfold seek_not_at_header_end. rewrite HEADER_LENGTH_spec. cbn [N.eqb Pos.eqb negb].
+    assert (Hlatch : forall p : reader * res unit, (exists r' e, p = (r', Err e)) ->
+              exists r' e, latch (unit_obs p) = (r', Err e) /\ r_done r' = true).
+    { intros p (r' & e & ->). unfold unit_obs, latch. cbn [fst snd bind]. eexists. exists e. split; reflexivity. }
+    apply Hlatch.
+    assert (Hq0 : total (qd (r_tr r)) = nq) by (destruct Hi as (_ & _ & _ & Q & _); rewrite Q; reflexivity).
+    unfold seek_impl, skip_questions_impl, bind2.
+    destruct Hwhere as [Hshortq|[Hfull Hrs]].
+    - destruct (skip_questions_loop_fail (N.to_nat (lenN qs)) (q_fuel r) r 0 hw Hs ltac:(lia) Hshortq (Hstopq Hshortq) ltac:(unfold q_fuel; rewrite Hq0; lia)) as (r' & e & E).
+      rewrite E. eauto.
+    - destruct (skip_questions_loop_ok (N.to_nat nq) (q_fuel r) r 0 hw Hs ltac:(lia) Hfull ltac:(unfold q_fuel; rewrite Hq0; lia)) as (r1 & E1 & S1).
+      rewrite E1.
+      assert (Hfuel : forall r0 i h s0, RState r0 i h -> s0 < 3 -> s_fuel r0 s0 = S (N.to_nat (sec_count (lin nq an ns ar) s0))).
+      { intros r0 i h s0 (_ & _ & (_ & _ & _ & _ & Sc & _) & _) H3. unfold s_fuel. rewrite Sc.
+        assert (s0 = 0 \/ s0 = 1 \/ s0 = 2) as [-> | [-> | ->]] by lia; reflexivity. }
+      specialize (Hstopr Hfull).
+      assert (Hcases : s = 0 \/ s = 1 \/ s = 2) by lia. destruct Hcases as [-> | [-> | ->]]; cbn [sec_start lin l_an l_ns] in *; [lia| |].
+      + destruct (skip_section_loop_fail 0 ltac:(lia) (N.to_nat (lenN rs)) (s_fuel r1 0) r1 nq (N.max hw nq) S1 ltac:(lia) Hfull) as (r' & e & E);
+          try (cbn [sec_start sec_count lin l_an l_ns l_ar]; lia); [exact Hstopr|rewrite (Hfuel _ _ _ 0 S1) by lia; cbn [sec_count lin l_an]; lia|].
+        rewrite E. eauto.
+      + destruct (N.lt_ge_cases (lenN rs) an) as [Hlow|Hhigh].
+        * destruct (skip_section_loop_fail 0 ltac:(lia) (N.to_nat (lenN rs)) (s_fuel r1 0) r1 nq (N.max hw nq) S1 ltac:(lia) Hfull) as (r' & e & E);
+            try (cbn [sec_start sec_count lin l_an l_ns l_ar]; lia); [exact Hstopr|rewrite (Hfuel _ _ _ 0 S1) by lia; cbn [sec_count lin l_an]; lia|].
+          rewrite E. eauto.
+        * destruct (skip_section_loop_ok 0 ltac:(lia) (N.to_nat an) (s_fuel r1 0) r1 nq (N.max hw nq) S1) as (r2 & E2 & S2);
+            try (cbn [sec_start sec_count lin l_an l_ns l_ar]; lia); [rewrite (Hfuel _ _ _ 0 S1) by lia; cbn [sec_count lin l_an]; lia|].
+          rewrite E2. cbn [sec_start sec_count lin l_an l_ns l_ar] in S2. replace (nq + 0 + an) with (nq + an) in S2 by lia.
+          destruct (skip_section_loop_fail 1 ltac:(lia) (N.to_nat (lenN rs - an)) (s_fuel r2 1) r2 (nq + an) _ S2 ltac:(lia) Hfull) as (r' & e & E);
+            try (cbn [sec_start sec_count lin l_an l_ns l_ar]; lia); [exact Hstopr|rewrite (Hfuel _ _ _ 1 S2) by lia; cbn [sec_count lin l_ns]; lia|].
+          rewrite E. eauto.
+  Qed.
+
   (* ---------------------------------------------------------------- every allowed sequence *)
   (* what the linear pass prescribes for an operation at item idx *)
   Definition expected (idx : N) (o : top) (out : obs) : Prop :=
@@ -1160,6 +1293,14 @@ Section W.
     assert (HP : P qs rs e2 nq = e1) by (eapply (P_nq msg A1 A2 nq an ns ar qs rs e1 e2); eassumption). rewrite <- HP.
     eapply (iter_records_spec msg A1 A2 nq an ns ar qs rs e1 e2 A4 A5 A6 A7 A8 A9 A10 A11); eassumption.
   Qed.
+
+  Theorem seek_skip_fails_any : forall r hw s, RState msg nq an ns ar qs rs e2 r 0 hw -> s < 3 ->
+    known (lin nq an ns ar) (mkA 0 hw false None) s = false ->
+    (lenN qs < nq -> question_at msg e2 = None) ->
+    (lenN qs = nq -> match record_at msg e2 with Some it => a_data_ok it = false | None => True end) ->
+    lenN qs < nq \/ (lenN qs = nq /\ lenN rs < sec_start (lin nq an ns ar) s) ->
+    exists r' e, rd_seek msg s r = (r', Err e) /\ r_done r' = true.
+  Proof. intros. use step_seek_skip_fails. Qed.
 End W.
 
 Theorem linear_parsed msg l : linear_of msg = Some l ->
